@@ -129,6 +129,8 @@ impl<F: Float> FFT<F> {
             }
             return;
         }
+        // the tables may still be smaller than this spectrum (fresh object): grow them before deriving strides from them
+        self.update_n(n);
         let buf = &mut self.bufs[0];
         buf.clear();
         buf.resize(v.len(), Complex::ZERO);
